@@ -26,8 +26,12 @@ impl ESpecTable {
                     // Consecutive nulls or leading null = empty ESpec string
                     return Err(EncodingError::EmptyESpec);
                 }
-                let spec = String::from_utf8(current.clone())
-                    .unwrap_or_else(|_| String::from_utf8_lossy(&current).to_string());
+                // ESpec strings are ASCII. A lossy conversion would change the
+                // byte length of the string, so the table could no longer be
+                // written back with the block size recorded in the header.
+                let spec = String::from_utf8(current.clone()).map_err(|_| {
+                    EncodingError::InvalidESpec(String::from_utf8_lossy(&current).to_string())
+                })?;
                 entries.push(spec);
                 current.clear();
             } else {
